@@ -55,6 +55,7 @@ def variations(P):
     V["nw_crops_die"] = dict(nw, crop_disruption="all_crops_die_instantly", grasses="all_crops_die_instantly")
     V["res_shutoff_continued"] = dict(P["net_nuclear_resilient"], shutoff="continued")
     V["res_intake_disabled"] = dict(P["net_nuclear_resilient"], intake_constraints="disabled_for_humans")
+    V["nw_nostore_continued"] = dict(nw, ratio_stocks_untouched="no_stored_between_years", shutoff="continued")
     V["nw_zero_demand"] = dict(nw, feed_kcals=0, biofuel_kcals=0)
     V["nw_T50"] = dict(nw, MINIMUM_PERCENT_FED_BEFORE_NONHUMAN_CONSUMPTION_ALLOWED=50)
     V["nw_large_animal_350kg"] = dict(nw, kg_meat_per_large_animal=350)
@@ -133,6 +134,9 @@ def jobs(tier, seed=0):
     res.append(dict(cc="DJI", preset="res_intake_disabled", options=copy.deepcopy(V["res_intake_disabled"])))
     # ... and with feed and biofuel demand that never stops (the industrial foods then meet a feed charge)
     res.append(dict(cc="NZL", preset="res_shutoff_continued", options=copy.deepcopy(V["res_shutoff_continued"])))
+    # no storage between years with demand that never stops, for countries that reach the threshold without feed
+    for cc in ("BRA", "SEN"):
+        res.append(dict(cc=cc, preset="nw_nostore_continued", options=copy.deepcopy(V["nw_nostore_continued"])))
     # feed and biofuel demand overridden to nothing
     res.append(dict(cc="ARG", preset="nw_zero_demand", options=copy.deepcopy(V["nw_zero_demand"])))
     # a run whose title contains a dot (the saved tables are named after the title)
